@@ -65,6 +65,7 @@ THEOREMS = [
     "JanetModel.Props.C11.latch_release",
     "JanetModel.Props.C11.eof_after_any_bytes",
     "JanetModel.Props.C11.eof_outcome_any",
+    "JanetModel.Props.C11.eof_clean_or_innermost",
     "JanetModel.Props.C11.finish_drains",
     "JanetModel.Props.C11.stack_push_in_bounds",
     "JanetModel.Props.C11.capacity_invariant",
